@@ -214,7 +214,85 @@ class Inliner:
         self.inlined.append(name)
         return blk
 
+    def _single_return(self, fn):
+        body = list(fn.body)
+        if body and isinstance(body[0], ast.Expr) and isinstance(
+                body[0].value, ast.Constant) and isinstance(
+                    body[0].value.value, str):
+            body = body[1:]
+        if len(body) == 1 and isinstance(body[0], ast.Return) and \
+                body[0].value is not None:
+            v = body[0].value
+            for n in ast.walk(v):
+                if isinstance(n, (ast.Yield, ast.YieldFrom, ast.Await,
+                                  ast.Lambda, ast.NamedExpr)):
+                    return None
+            return v
+        return None
+
+    def _expr_inline(self, s, stack, depth):
+        """Calls of single-`return <expr>` helpers inside an expression are
+        replaced by that expression (arguments substituted)."""
+        inl = self
+
+        class T(ast.NodeTransformer):
+            def visit_Call(self, n):
+                self.generic_visit(n)
+                if depth >= inl.max_depth:
+                    return n
+                r = inl._resolve(n)
+                if r is None:
+                    return n
+                how, name, fn = r
+                if name in inl.primitives or name in stack or \
+                        isinstance(fn, ast.AsyncFunctionDef) or \
+                        inl._is_gen(fn) or not inl._inlinable(fn):
+                    return n
+                v = inl._single_return(fn)
+                if v is None:
+                    return n
+                params = [a.arg for a in fn.args.args]
+                if how == "method":
+                    params = params[1:]
+                if n.keywords or len(n.args) != len(params) or any(
+                        isinstance(a, ast.Starred) for a in n.args):
+                    return n
+                # each parameter used at most once, or the argument is a
+                # plain name / constant (no duplicated evaluation)
+                bind = dict(zip(params, n.args))
+                for p, a in bind.items():
+                    uses = sum(1 for x in ast.walk(v) if isinstance(
+                        x, ast.Name) and x.id == p)
+                    if uses > 1 and not isinstance(a, (ast.Name,
+                                                       ast.Constant)):
+                        return n
+                out = acopy(v)
+
+                class S(ast.NodeTransformer):
+                    def visit_Name(self, x):
+                        if x.id in bind and isinstance(x.ctx, ast.Load):
+                            return acopy(bind[x.id])
+                        return x
+                out = S().visit(out)
+                inl.inlined.append(name)
+                return ast.copy_location(out, n)
+
+            def visit_FunctionDef(self, n):
+                return n
+            visit_AsyncFunctionDef = visit_Lambda = visit_ClassDef = \
+                visit_FunctionDef
+        if isinstance(s, (ast.Expr, ast.Assign, ast.AugAssign, ast.Return,
+                          ast.AnnAssign)):
+            if getattr(s, "value", None) is not None:
+                s.value = T().visit(s.value)
+        elif isinstance(s, (ast.If, ast.While)):
+            s.test = T().visit(s.test)
+        elif isinstance(s, ast.Raise) and s.exc is not None:
+            s.exc = T().visit(s.exc)
+        return s
+
     def _stmt(self, s, stack, depth):
+        s = self._expr_inline(s, stack, depth)
         # recurse into compound statements first
         for fld in ("body", "orelse", "finalbody"):
             if hasattr(s, fld) and isinstance(getattr(s, fld), list) and \
